@@ -304,6 +304,14 @@ def m_numcast(ex, st, fr, path, args, m):
     return NotImplemented
 
 
+@model(r"^<(\w+) as (?:num::|num_traits::)?(?:identities::)?(Zero|One)>::(zero|one)$")
+def m_num_zero_one(ex, st, fr, path, args, m):
+    ty = m.group(1)
+    if ty in INT_W:
+        return I(ty, 0 if m.group(3) == "zero" else 1)
+    return NotImplemented
+
+
 @model(r"^(?:num::|num_traits::)?(?:cast::)?cast::<(\w+), (\w+)>$")
 def m_numcast_fn(ex, st, fr, path, args, m):
     a, = args
